@@ -1,0 +1,14 @@
+//go:build verif
+// +build verif
+
+package node
+
+// VerifGate, when set by a verification harness, is called at named points of the sync loop
+// and of the averages cache. Only compiled with -tags verif.
+var VerifGate func(point string)
+
+func verifGate(point string) {
+	if VerifGate != nil {
+		VerifGate(point)
+	}
+}
